@@ -81,6 +81,13 @@ def legacy_table(ctx):
     lm_axes = [SMALL] * 6
     lm_args = [a + (c,) for a in itertools.product(*lm_axes) for c in OPT]
     lm_args += list(itertools.product(*lm_axes))
+    # each argument in turn at the ends of the signed 32-bit range (and one inside them), the
+    # others ordinary: the one value a symmetric clamp or an abs() gets wrong is -2^31
+    for pos in range(6):
+        for edge in (-(1 << 31), -(1 << 31) + 1, (1 << 31) - 2, (1 << 31) - 1):
+            for base in ((1, 1, 1, 1, 1, 1), (7, -1, 0, 0, 7, 1)):
+                args = base[:pos] + (edge,) + base[pos + 1:]
+                lm_args += [args, args + (None,), args + (1,)]
     if ctx.thorough:
         wide = [-(1 << 31), 0, 1, (1 << 31) - 1]
         lm_args += [a + (c,) for a in itertools.product(*([wide] * 6)) for c in (None, 0, 2)]
